@@ -75,6 +75,20 @@ class Findings(object):
                 continue
             ok = True
             for key, want in entry.get('fingerprint', {}).items():
+                if key.endswith('__any'):
+                    # the case's list-valued field must intersect `want`
+                    have = fingerprint.get(key[:-5]) or []
+                    if not (set(have) & set(want)):
+                        ok = False
+                        break
+                    continue
+                if key.endswith('__subset'):
+                    # the case's list-valued field must be non-empty and within `want`
+                    have = fingerprint.get(key[:-8]) or []
+                    if not have or not (set(have) <= set(want)):
+                        ok = False
+                        break
+                    continue
                 have = fingerprint.get(key)
                 if isinstance(want, list):
                     if have not in want:
@@ -164,7 +178,19 @@ class Report(object):
                                'detail': detail, 'tier': self.tier,
                                'seed': seed()}, fp_, indent=1, default=str)
                 replay_paths.append(path)
+        summary = {}
+        for fp, _detail in self.violations:
+            key = json.dumps(fp, sort_keys=True, default=str)
+            summary[key] = summary.get(key, 0) + 1
+        for key, n in sorted(summary.items(), key=lambda kv: -kv[1]):
+            print('  unlisted failing cases: %6d  %s' % (n, key))
+        if self.violations and os.environ.get('VERIF_DUMP'):
+            with open(os.environ['VERIF_DUMP'], 'w') as fp_:
+                for fp, detail in self.violations:
+                    fp_.write(json.dumps({'fingerprint': fp, 'detail': detail},
+                                         default=str) + '\n')
         cov = dict(self.coverage)
+        cov['violation_classes'] = summary
         cov['spec_drift'] = self.drift
         cov['known_findings'] = [
             {'id': k, 'count': v[1], 'what': v[0].get('what')}
